@@ -172,6 +172,27 @@ func c14RunLayout(ci interface{}, s *vkit.Stats) error {
 		if c.Body+c.Pad <= 13 {
 			s.Class("refused/too-short")
 		}
+		// asking again does not change the answer (half of the refused cases ask a second and a third time)
+		if c.Seed%2 == 0 {
+			for attempt := 2; attempt <= 3; attempt++ {
+				var g2 *Guard
+				var perr2 error
+				if r := c03Refusal(func() { g2, perr2 = PtrTrampoline(entry, c14Replacement, nil) }); r != nil {
+					perr2 = fmt.Errorf("panic: %v", r)
+				}
+				if perr2 == nil {
+					if g2 != nil {
+						g2.Apply()
+						g2.UnpatchWithLock()
+					}
+					return fmt.Errorf("%s: refused at first (%v) but accepted at attempt %d", desc, perr, attempt)
+				}
+				if !bytes.Equal(mem, before) {
+					return fmt.Errorf("%s: attempt %d refused (%v) but bytes changed", desc, attempt, perr2)
+				}
+			}
+			s.Class("refused/asked-again")
+		}
 	} else {
 		if c.Body+c.Pad < 13 {
 			return fmt.Errorf("%s: accepted although the function (code + padding = %d bytes) cannot hold the 13-byte jump", desc, c.Body+c.Pad)
